@@ -472,6 +472,17 @@ Section PayloadFacts.
     any_panic plen peqb c tr = false /\
     Permutation (predicted plen peqb c tr) (tr_dlv tr).
 
+  Lemma validate_frames_to : forall c tr f,
+    validate plen peqb c tr = 0 -> In f (tr_frames tr) -> frame_to_ok peqb c f = true.
+  Proof.
+    intros c tr f H Hf. unfold validate in H.
+    destruct (negb (list_eqb (list_eqb Z.eqb) (map listen_codes (c_machines c)) (tr_listen tr))); [discriminate|].
+    destruct (negb (tx_codes_ok plen c (c_ops c) (tr_tx tr))); [discriminate|].
+    destruct (negb (msub_eq (sop_eqb peqb) (expected_frames plen peqb c tr) (observed_frames tr))); [discriminate|].
+    destruct (forallb (frame_to_ok peqb c) (tr_frames tr)) eqn:E6; cbn [negb] in H; [|discriminate].
+    rewrite forallb_forall in E6. apply E6. exact Hf.
+  Qed.
+
   Lemma validate_accept : forall c tr, validate plen peqb c tr = 0 -> accepted c tr.
   Proof.
     intros c tr H. unfold validate in H.
@@ -480,6 +491,7 @@ Section PayloadFacts.
     destruct (tx_codes_ok plen c (c_ops c) (tr_tx tr)) eqn:E2; cbn [negb] in H; [|discriminate].
     destruct (msub_eq (sop_eqb peqb) (expected_frames plen peqb c tr) (observed_frames tr)) eqn:E3;
       cbn [negb] in H; [|discriminate].
+    destruct (forallb (frame_to_ok peqb c) (tr_frames tr)) eqn:E6; cbn [negb] in H; [|discriminate].
     destruct (any_panic plen peqb c tr) eqn:E4; [discriminate|].
     destruct (msub_eq (dev_eqb peqb) (predicted plen peqb c tr) (tr_dlv tr)) eqn:E5;
       cbn [negb] in H; [|discriminate].
